@@ -2,6 +2,7 @@
 From Coq Require Import List ZArith NArith Bool.
 Import ListNotations.
 From GS Require Import Num EventLoop Kernel Sim.
+From GS Require Import NumZ ExampleKit.
 From GS.Proofs Require Import Aux SimP SimP3 SimP5.
 
 Section C13.
@@ -72,6 +73,13 @@ Theorem C13_silent_node_events_invisible (x : nat) (h : sstate F PS) now p :
 Proof. apply owned_event_is_invisible. Qed.
 
 End C13.
+
+(** Non-vacuity: three nodes are numbered 0, 1, 2 in the order they were added; each runs its own callbacks. *)
+Definition ex13 (n : nat) (ps : unit) (now : Z) (c : cb Z) : unit * list (action Z) := (tt, []).
+Example C13_example :
+  fst (fst (fst (runx (cfgx [HTimer] 3 [(0, 0, 0)%Z; (0, 0, 0)%Z; (0, 0, 0)%Z] 10%Z 0%Z 0%Z 1%Z 1%Z [] []) ex13 None None 20))) =
+  [TCb 0 0%Z CbInit; TCb 1 0%Z CbInit; TCb 2 0%Z CbInit; TCb 0 0%Z CbFinish; TCb 1 0%Z CbFinish; TCb 2 0%Z CbFinish].
+Proof. vm_compute. reflexivity. Qed.
 
 Print Assumptions C13_identities.
 Print Assumptions C13_callback_owner.
